@@ -191,6 +191,11 @@ NumView(s) ==
     [] s = "1.5"  -> "1/1.5"
     [] s = "-3e2" -> "-300/-300"
     [] s = "7"    -> "7/7"
+    [] s = "4"    -> "4/4"
+    [] s = "1"    -> "1/1"
+    [] s = "1."   -> "1/1"
+    [] s = "-3"   -> "-3/-3"
+    [] s = "-3e"  -> "-3/-3"
     [] OTHER      -> "0/0"
 
 RECURSIVE Proj(_)
